@@ -264,13 +264,55 @@ def part_b(d, tier, seed):
     return evs, total, len(rej)
 
 
+def part_c(d):
+    """`init` with an unsupported library / a missing project path, for every kind of configuration target"""
+    evs = []
+    doc = json.dumps({"productName": "demo", "plugins": {"shell": {"open": True}}}, indent=2)
+    n = 0
+    for target in ("project_conf", "given_conf", "custom_new", "custom_existing_forced"):
+        for library in ("none", "zod", "yup", "ZOD", ""):
+            for project in ("present", "missing"):
+                n += 1
+                root = os.path.join(d, "init-%d" % n)
+                files = {"src-tauri/src/lib.rs": rustgen.PRELUDE + "#[tauri::command]\npub fn hello() {}\n",
+                         "src-tauri/tauri.conf.json": doc, "cfgdir/tauri.conf.json": doc, "cfgdir/old.json": "{\"old\": true}\n"}
+                rustgen.write_project(root, files)
+                ppath = "./src-tauri" if project == "present" else "./missing"
+                args = ["init", "-p", ppath, "-g", "./src/generated", "-v", library]
+                if target == "project_conf":
+                    args += ["-o", "src-tauri/tauri.conf.json"]
+                elif target == "given_conf":
+                    args += ["-o", "cfgdir/tauri.conf.json"]
+                elif target == "custom_new":
+                    args += ["-o", "cfgdir/new.json"]
+                else:
+                    args += ["-o", "cfgdir/old.json", "--force"]
+
+                def snap():
+                    out = {}
+                    for base, _, fs in os.walk(root):
+                        for f in fs:
+                            p = os.path.join(base, f)
+                            out[os.path.relpath(p, root)] = open(p, "rb").read()
+                    return out
+                before = snap()
+                r = runner.cli(args, root)
+                after = snap()
+                evs.append({"event": "InitRun", "case": "init%d/%s" % (n, target), "target": target, "library": library if library else "empty",
+                            "project": project, "rejected": r.rc != 0, "mutated": before != after,
+                            "changed": sorted(k for k in set(before) | set(after) if before.get(k) != after.get(k))[:6]})
+                shutil.rmtree(root, ignore_errors=True)
+    return evs
+
+
 def run(tier, seed):
     t0 = time.time()
     d = C.scratch("c19")
     verdicts = C.Verdicts(PROP)
     ea, nshapes = part_a(d, tier, seed)
     eb, ncombos, nrej = part_b(d, tier, seed)
-    events = ea + eb
+    ec = part_c(d)
+    events = ea + eb + ec
     mism_all = []
     CH = 4000
     for ci in range(0, len(events), CH):
@@ -290,6 +332,11 @@ def run(tier, seed):
             verdicts.reject("doc plugins=%s what=%s" % (ev["plugins"], w0), detail[:160],
                             "save_to_tauri_config/from_tauri_config on a document with plugins=%s: %s %s" % (ev["plugins"], w0, detail[:200]),
                             {"case": ev["case"], "before": ev["before"], "written": ev["written"]})
+        elif ev["event"] == "InitRun":
+            verdicts.reject("init target=%s library=%s project=%s" % (ev["target"], "valid" if ev["library"] in ("zod", "none") else "invalid", ev["project"]),
+                            "rejected=%s mutated=%s" % (ev["rejected"], ev["mutated"]),
+                            "`init -o <%s> -v '%s'` with project path %s: rejected=%s, files changed=%s" % (ev["target"], ev["library"], ev["project"], ev["rejected"], ev["changed"]),
+                            {"case": ev["case"], "library": ev["library"], "project": ev["project"], "target": ev["target"]})
         else:
             w0 = why[0] if isinstance(why, list) else str(why)
             detail = str(why[1:]) if isinstance(why, list) else ""
